@@ -324,6 +324,8 @@ pub struct World {
     pub trace: Option<Vec<String>>,
     pub buf: Vec<u8>,
     pub pair_cfg: BTreeMap<u64, TcfgP>,
+    polled_pending: BTreeSet<(usize, usize)>,
+    pending_wake: bool,
 }
 
 fn mk_endpoint_config(spec: &EpSpec, seed: u64, idx: usize) -> EndpointConfig {
@@ -422,6 +424,8 @@ impl World {
             trace: None,
             buf: Vec::with_capacity(65536),
             pair_cfg: BTreeMap::new(),
+            polled_pending: BTreeSet::new(),
+            pending_wake: false,
         }
     }
 
@@ -650,6 +654,9 @@ impl World {
             }
             Some(DatagramEvent::ConnectionEvent(ch, cev)) => {
                 self.mon.after_deliver(ei, &d, Some(ch.0), &self.eps[ei], &mut self.led);
+                if self.eps[ei].conns.get(&ch.0).map_or(false, |c| c.forgotten) {
+                    self.led.violate("C08", format!("endpoint {ei}: datagram routed to handle {} after that connection drained and was forgotten", ch.0));
+                }
                 if let Some(conn) = self.eps[ei].conns.get_mut(&ch.0) {
                     self.mon.before_conn_event(ei, ch.0, &d, conn);
                     conn.c.handle_event(cev);
@@ -736,6 +743,7 @@ impl World {
                 app.dgram_send_buf = Some(spec.tcfg.dgram_send_buf);
                 app.start(&mut c, &mut self.led);
                 self.mon.on_conn_created(ei, ch.0, pair, Side::Server, remote);
+                self.mon.note_created(ei, ch.0, &c, self.now);
                 if let Some(t) = self.pair_cfg.get(&pair) {
                     self.mon.set_peer_limits(ei, ch.0, (t.rwnd, t.stream_rwnd, t.max_bidi, t.max_uni));
                 }
@@ -779,6 +787,15 @@ impl World {
     /// Drain application events of one connection.
     fn drain_events(&mut self, ei: usize, ch: usize) -> bool {
         let mut any = false;
+        if !self.polled_pending.contains(&(ei, ch)) {
+            self.polled_pending.insert((ei, ch));
+            if let Some(conn) = self.eps[ei].conns.get_mut(&ch) {
+                if !conn.c.is_drained() && conn.app.poll_pending(&mut conn.c, &mut self.led) {
+                    any = true;
+                    self.pending_wake = true;
+                }
+            }
+        }
         loop {
             let Some(conn) = self.eps[ei].conns.get_mut(&ch) else {
                 return any;
@@ -823,12 +840,19 @@ impl World {
                 self.mon.on_drained_event(ei, ch, conn, self.now, &mut self.led);
             }
             let ep = &mut self.eps[ei];
+            let open_before = ep.ep.open_connections();
             if let Some(cev) = ep.ep.handle_event(ConnectionHandle(ch), ee) {
                 if let Some(conn) = ep.conns.get_mut(&ch) {
                     conn.c.handle_event(cev);
                 }
             }
             if drained {
+                let open_after = self.eps[ei].ep.open_connections();
+                self.mon.cnt.inc("c08.forget_checks");
+                let already = self.eps[ei].conns.get(&ch).map_or(false, |c| c.forgotten);
+                if !already && open_after + 1 != open_before {
+                    self.led.violate("C08", format!("endpoint {ei}: open_connections went {open_before} -> {open_after} when connection {ch} drained"));
+                }
                 if let Some(conn) = self.eps[ei].conns.get_mut(&ch) {
                     conn.forgotten = true;
                 }
@@ -1000,6 +1024,7 @@ impl World {
                         self.mon.on_local_close(ep, c.ch.0, c, nowns, code as u64, &reason);
                         c.c.close(now, VarInt::from_u32(code), reason.clone().into());
                         c.local_close_at = Some(nowns);
+                        self.mon.after_local_close(ep, c.ch.0, c, nowns);
                     }
                 }
             }
@@ -1040,6 +1065,8 @@ impl World {
     /// One instant of the world. Returns false if nothing can ever happen again.
     pub fn step(&mut self) -> bool {
         self.steps += 1;
+        self.polled_pending.clear();
+        self.pending_wake = false;
         // 1. deliveries due now
         let mut due = vec![];
         while self.net.q.peek().map_or(false, |d| d.at <= self.now) {
@@ -1131,7 +1158,7 @@ impl World {
         if let Some(&(at, _)) = self.ops.iter().min_by_key(|(at, _)| *at) {
             next = Some(next.map_or(at, |n| n.min(at)));
         }
-        let capped = self.eps.iter().any(|e| e.conns.values().any(|c| c.blocked_transmit_cap));
+        let capped = self.eps.iter().any(|e| e.conns.values().any(|c| c.blocked_transmit_cap)) || self.pending_wake;
         if capped {
             for e in &mut self.eps {
                 for c in e.conns.values_mut() {
